@@ -1,0 +1,104 @@
+//go:build verif
+
+// Contracts for package dataset, checked by /verif (govc). Comment-only: this file adds no code.
+
+package dataset
+
+//@ mode ints=wrap floats=ext
+
+//@ pred Sorted(v []float64) := forall i int, j int :: 0 <= i && i <= j && j < len(v) ==> v[i] <= v[j]
+//@ pred AllFinite(v []float64) := forall i int :: 0 <= i && i < len(v) ==> finite(v[i])
+// same multiset of values in v (now) as in w (in the pre-state)
+//@ pred DInv(d *Dataset) := same(d.Count, xf(real(len(d.Values)))) && AllFinite(d.Values) && (d.sorted ==> Sorted(d.Values))
+
+//@ func NewDataset
+//@   serves C20
+//@   ensures result != nil && fresh(result) && len(result.Values) == 0 && DInv(result)
+
+//@ func Dataset.Add
+//@   serves C20
+//@   requires DInv(d) && finite(v)
+//@   ensures DInv(d) && !d.sorted
+//@   ensures len(d.Values) == old(len(d.Values)) + 1
+//@   ensures prefix: forall j int :: 0 <= j && j < old(len(d.Values)) ==> same(d.Values[j], old(d.Values[j]))
+//@   ensures last: same(d.Values[old(len(d.Values))], v)
+//@   ensures alias: arr(d.Values) == old(arr(d.Values)) || fresh(arr(d.Values))
+//@   modifies d, arr(d.Values)
+
+//@ func Dataset.sort
+//@   serves C20
+//@   requires DInv(d)
+//@   ensures DInv(d) && d.sorted && Sorted(d.Values)
+//@   ensures len(d.Values) == old(len(d.Values)) && arr(d.Values) == old(arr(d.Values)) && off(d.Values) == old(off(d.Values))
+//@   ensures perm: forall x float64 :: OccX(contents(d.Values), off(d.Values), off(d.Values) + len(d.Values), x) == old(OccX(contents(d.Values), off(d.Values), off(d.Values) + len(d.Values), x))
+//@   modifies d.sorted, arr(d.Values)
+
+// Lower/upper quantile: the order statistic at rank floor/ceil of q*(n-1) of the values (the slice is
+// sorted in place: afterwards it is a sorted permutation of what it held, so index k is the k-th order statistic).
+//@ func Dataset.LowerQuantile
+//@   serves C20
+//@   requires DInv(d)
+//@   ensures DInv(d) && len(d.Values) == old(len(d.Values))
+//@   ensures nan: (!(q >= 0.0 && q <= 1.0) || len(d.Values) == 0) ==> isnan(result)
+//@   ensures unchanged-on-nan: (!(q >= 0.0 && q <= 1.0) || len(d.Values) == 0) ==> arr(d.Values) == old(arr(d.Values))
+//@   ensures value: q >= 0.0 && q <= 1.0 && len(d.Values) > 0 ==> Sorted(d.Values) && same(result, d.Values[floor(real(q) * real(len(d.Values) - 1))])
+//@   ensures perm: forall x float64 :: OccX(contents(d.Values), off(d.Values), off(d.Values) + len(d.Values), x) == old(OccX(contents(d.Values), off(d.Values), off(d.Values) + len(d.Values), x))
+//@   modifies d.sorted, arr(d.Values)
+
+//@ func Dataset.UpperQuantile
+//@   serves C20
+//@   requires DInv(d)
+//@   ensures DInv(d) && len(d.Values) == old(len(d.Values))
+//@   ensures nan: (!(q >= 0.0 && q <= 1.0) || len(d.Values) == 0) ==> isnan(result)
+//@   ensures value: q >= 0.0 && q <= 1.0 && len(d.Values) > 0 ==> Sorted(d.Values) && same(result, d.Values[0 - floor(0.0 - real(q) * real(len(d.Values) - 1))])
+//@   ensures perm: forall x float64 :: OccX(contents(d.Values), off(d.Values), off(d.Values) + len(d.Values), x) == old(OccX(contents(d.Values), off(d.Values), off(d.Values) + len(d.Values), x))
+//@   modifies d.sorted, arr(d.Values)
+
+//@ func Dataset.Quantile
+//@   serves C20
+//@   requires DInv(d)
+//@   ensures DInv(d) && len(d.Values) == old(len(d.Values))
+//@   ensures nan: (!(q >= 0.0 && q <= 1.0) || len(d.Values) == 0) ==> isnan(result)
+//@   ensures value: q >= 0.0 && q <= 1.0 && len(d.Values) > 0 ==> Sorted(d.Values) && same(result, d.Values[floor(real(q) * real(len(d.Values) - 1))])
+//@   modifies d.sorted, arr(d.Values)
+
+//@ func Dataset.Min
+//@   serves C20
+//@   requires DInv(d) && len(d.Values) > 0
+//@   ensures DInv(d) && Sorted(d.Values) && same(result, d.Values[0])
+//@   ensures least: forall i int :: 0 <= i && i < len(d.Values) ==> result <= d.Values[i]
+//@   ensures perm: forall x float64 :: OccX(contents(d.Values), off(d.Values), off(d.Values) + len(d.Values), x) == old(OccX(contents(d.Values), off(d.Values), off(d.Values) + len(d.Values), x))
+//@   modifies d.sorted, arr(d.Values)
+
+//@ func Dataset.Max
+//@   serves C20
+//@   requires DInv(d) && len(d.Values) > 0
+//@   ensures DInv(d) && Sorted(d.Values) && same(result, d.Values[len(d.Values) - 1])
+//@   ensures greatest: forall i int :: 0 <= i && i < len(d.Values) ==> d.Values[i] <= result
+//@   ensures perm: forall x float64 :: OccX(contents(d.Values), off(d.Values), off(d.Values) + len(d.Values), x) == old(OccX(contents(d.Values), off(d.Values), off(d.Values) + len(d.Values), x))
+//@   modifies d.sorted, arr(d.Values)
+
+// Sum in real arithmetic (A-REAL): the sum of the values; the compensated-summation error bound is not decided.
+//@ func Dataset.Sum
+//@   serves C20
+//@   uses XSumEmpty XSumStep
+//@   requires DInv(d)
+//@   ensures same(result, xf(XSum(contents(d.Values), off(d.Values), off(d.Values) + len(d.Values))))
+//@   loop 1 invariant summaryStatistics != nil && fresh(summaryStatistics) && stat.SSInv(summaryStatistics)
+//@   loop 1 invariant same(summaryStatistics.sum, xf(XSum(contents(d.Values), off(d.Values), off(d.Values) + $i1)))
+//@   loop 1 invariant DInv(d)
+
+// Merge = adding every value of o, in order, to d
+//@ func Dataset.Merge
+//@   serves C20
+//@   requires DInv(d) && DInv(o) && o != nil && d != o && arr(d.Values) != arr(o.Values)
+//@   ensures DInv(d) && len(d.Values) == old(len(d.Values)) + len(o.Values)
+//@   ensures prefix: forall j int :: 0 <= j && j < old(len(d.Values)) ==> same(d.Values[j], old(d.Values[j]))
+//@   ensures added: forall j int :: 0 <= j && j < len(o.Values) ==> same(d.Values[old(len(d.Values)) + j], o.Values[j])
+//@   ensures arg: len(o.Values) == old(len(o.Values)) && arr(o.Values) == old(arr(o.Values)) && (forall j int :: 0 <= j && j < len(o.Values) ==> same(o.Values[j], old(o.Values[j])))
+//@   modifies d, arr(d.Values)
+//@   loop 1 invariant DInv(d) && DInv(o) && len(d.Values) == old(len(d.Values)) + $i1
+//@   loop 1 invariant forall j int :: 0 <= j && j < old(len(d.Values)) ==> same(d.Values[j], old(d.Values[j]))
+//@   loop 1 invariant forall j int :: 0 <= j && j < $i1 ==> same(d.Values[old(len(d.Values)) + j], o.Values[j])
+//@   loop 1 invariant o.Values == old(o.Values) && (forall j int :: 0 <= j && j < len(o.Values) ==> same(o.Values[j], old(o.Values[j])))
+//@   loop 1 invariant arr(d.Values) != arr(o.Values) && (arr(d.Values) == old(arr(d.Values)) || fresh(arr(d.Values)))
